@@ -46,7 +46,7 @@ Example ex_wire_rsp : wire_ok_rsp env0 SP MAXP (ok_reply env0 ex_sig (ex_q false
 Proof. vm_compute. reflexivity. Qed.
 Example ex_wire_rsp_err : wire_ok_rsp env0 SP MAXP (err_reply (ex_q false) 78 [111; 111; 112; 115]).
 Proof. vm_compute. reflexivity. Qed.
-Example ex_maps : maps_after ex_opts ex_rc ex_rs = Some [ex_rc; ex_rs].
+Example ex_maps : maps_after ex_opts ex_rc ex_rs = [ex_rc; ex_rs].
 Proof. reflexivity. Qed.
 
 (* the theorems applied to the instance ... *)
@@ -56,15 +56,31 @@ Example ex_transparent_ok :
 Proof.
   apply (transparent_ok env0 SR SP MAXP ex_impl_ok ex_pc ex_ps [ex_sig] ex_sig ex_args ex_opts 41 [79; 98; 106] 3000 ex_ret ex_outs ex_rc ex_rs).
   - exact ex_find. - exact ex_wire_req. - exact ex_args_rt. - reflexivity. - exact I. - exact ex_results_rt.
-  - exact ex_wire_rsp. - exact ex_maps.
+  - exact ex_wire_rsp.
 Qed.
 Example ex_transparent_err :
   call env0 SR SP MAXP ex_impl_err (filters_of inv_res ex_pc) (filters_of disp_res ex_ps) [ex_sig] ex_sig ex_args ex_opts false 41 [79; 98; 106] 3000
   = (CErr 78 [111; 111; 112; 115] false, core_events ex_pc ex_ps ex_sig ex_args ex_opts true).
 Proof.
   apply (transparent_err env0 SR SP MAXP ex_impl_err ex_pc ex_ps [ex_sig] ex_sig ex_args ex_opts 41 [79; 98; 106] 3000 78 [111; 111; 112; 115]).
-  - exact ex_find. - exact ex_wire_req. - exact ex_args_rt. - reflexivity. - discriminate. - discriminate. - exact ex_wire_rsp_err.
+  - exact ex_find. - exact ex_wire_req. - exact ex_args_rt. - reflexivity. - discriminate. - exact ex_wire_rsp_err.
 Qed.
+(* an error with an empty message: the code arrives, the text is the framework's *)
+Definition ex_impl_err0 : bytes -> list val -> smap -> smap -> impl_res := fun _ _ _ _ => IFail 78 [].
+Example ex_wire_rsp_err0 : wire_ok_rsp env0 SP MAXP (err_reply (ex_q false) 78 []).
+Proof. vm_compute. reflexivity. Qed.
+Example ex_transparent_err_empty :
+  fst (call env0 SR SP MAXP ex_impl_err0 (filters_of inv_res ex_pc) (filters_of disp_res ex_ps) [ex_sig] ex_sig ex_args ex_opts false 41 [79; 98; 106] 3000)
+  = CErr 78 sys_msg true.
+Proof.
+  rewrite (transparent_err env0 SR SP MAXP ex_impl_err0 ex_pc ex_ps [ex_sig] ex_sig ex_args ex_opts 41 [79; 98; 106] 3000 78 []).
+  - reflexivity. - exact ex_find. - exact ex_wire_req. - exact ex_args_rt. - reflexivity. - discriminate. - exact ex_wire_rsp_err0.
+Qed.
+(* a nil context map passed by the caller while the implementation sets a response context: no panic, the results arrive *)
+Example ex_nil_context_map :
+  fst (call env0 SR SP MAXP ex_impl_ok (filters_of inv_res ex_pc) (filters_of disp_res ex_ps) [ex_sig] ex_sig ex_args [None; Some []] false 41 [79; 98; 106] 3000)
+  = COk ex_ret ex_outs [[]; ex_rs].
+Proof. vm_compute. reflexivity. Qed.
 Example ex_oneway :
   call env0 SR SP MAXP ex_impl_ok (filters_of inv_res ex_pc) (filters_of disp_res ex_ps) [ex_sig] ex_sig ex_args ex_opts true 41 [79; 98; 106] 3000
   = (CSent, core_events ex_pc ex_ps ex_sig ex_args ex_opts false).
